@@ -20,8 +20,10 @@ import (
 	"github.com/form3tech-oss/f1/v2/internal/progress"
 	"github.com/form3tech-oss/f1/v2/internal/verifharness/hlib"
 	"github.com/form3tech-oss/f1/v2/internal/verifshim/vatomic"
+	"github.com/form3tech-oss/f1/v2/internal/verifshim/vctx"
 	"github.com/form3tech-oss/f1/v2/internal/verifshim/vrt"
 	"github.com/form3tech-oss/f1/v2/internal/verifshim/vsync"
+	"github.com/form3tech-oss/f1/v2/internal/verifshim/vtime"
 	"github.com/form3tech-oss/f1/v2/internal/workers"
 	"github.com/form3tech-oss/f1/v2/pkg/f1/scenarios"
 	f1testing "github.com/form3tech-oss/f1/v2/pkg/f1/testing"
@@ -163,8 +165,89 @@ func scenario(c cfg) vrt.Scenario {
 	return vrt.Scenario{Name: name, Body: body, Post: post, Memo: true, Horizon: time.Minute}
 }
 
+// lateHelper (C07): through the real trigger pool. Iteration 1 leaves a helper goroutine
+// behind that marks the handle failed 50 ms after the iteration returned, while the
+// worker is idle; iteration 2 on the same worker, triggered at 100 ms, passes. It must
+// start on a clean handle and be reported successful.
+func lateHelper(mode string) vrt.Scenario {
+	body := func() {
+		x := &world{stats: &progress.Stats{}, dirty: map[string]bool{}}
+		w = x
+		vatomic.QuietAll(x.stats)
+		m := metrics.NewInstance(prometheus.NewRegistry(), false, nil)
+		n := 0
+		sc := &scenarios.Scenario{Name: "s", RunFn: func(t *f1testing.T) {
+			n++
+			id := fmt.Sprint(n)
+			if t.Failed() {
+				x.dirty[id] = true
+			}
+			if n == 1 {
+				vrt.GoNamed("late-helper", func() {
+					vtime.Sleep(50 * time.Millisecond)
+					t.Fail()
+				})
+			}
+		}}
+		as := workers.NewActiveScenario(sc, m, x.stats, hlib.DiscardLogger(), hlib.DiscardLogrus())
+		mgr := workers.New(0, as)
+		ctx, cancel := vctx.WithCancel(vctx.Background())
+		defer cancel()
+		if mode == "users" {
+			// users mode: the worker runs iterations back to back; the second one is made to start after the helper
+			sc.RunFn = func(t *f1testing.T) {
+				n++
+				id := fmt.Sprint(n)
+				if t.Failed() {
+					x.dirty[id] = true
+				}
+				if n == 1 {
+					vrt.GoNamed("late-helper", func() {
+						vtime.Sleep(50 * time.Millisecond)
+						t.Fail()
+					})
+					return
+				}
+				vtime.Sleep(100 * time.Millisecond)
+			}
+		}
+		pool := mgr.NewTriggerPool(1)
+		wctx := pool.Start(ctx)
+		done := hlib.StopWhenDone(wctx, pool)
+		pool.Trigger(wctx, 1)
+		vtime.Sleep(100 * time.Millisecond)
+		pool.Trigger(wctx, 1)
+		vtime.Sleep(10 * time.Millisecond)
+		cancel()
+		done()
+		vrt.Recv(mgr.WaitForCompletion())
+	}
+	post := func(o *vrt.Outcome) {
+		if o.Status != vrt.StOK {
+			o.Fail("C07/worker-lost", "late-helper", o.Status.String()+": "+o.Detail+o.Crash)
+			return
+		}
+		if o.Cost != 0 {
+			return // (with timers firing early the helper's mark may land inside iteration 2, which then is rightly reported failed)
+		}
+		tot := w.stats.Total()
+		if w.dirty["2"] {
+			o.Fail("C07/clean-start", "late-helper", "iteration 2 started on a handle that a goroutine left behind by iteration 1 had marked failed while the worker was idle")
+		}
+		if tot.SuccessfulIterationDurations.Count+tot.FailedIterationDurations.Count != 2 || tot.FailedIterationDurations.Count > 0 && w.dirty["2"] {
+			o.Fail("C07/classification", "success-reported-as-failure/late-helper", fmt.Sprintf("%d successful and %d failed reported; both bodies passed (iteration 1's helper marked the handle only after it had been reported)", tot.SuccessfulIterationDurations.Count, tot.FailedIterationDurations.Count))
+		}
+	}
+	return vrt.Scenario{Name: "C07/trigger-pool/late-helper-between-iterations", Body: body, Post: post, Memo: true, Horizon: time.Minute}
+}
+
 func scenariosFor(tier string) []vrt.Scenario {
 	var out []vrt.Scenario
+	if *prop == "C07" {
+		s := lateHelper("trigger")
+		s.Bound = 1
+		out = append(out, s)
+	}
 	add := func(b int, scripts ...string) {
 		s := scenario(cfg{scripts})
 		s.Bound = b
